@@ -110,6 +110,17 @@ func both(t fataler, a, p *opclient.Client, line string) opclient.Reply {
 			t.Fatalf("%v", err)
 		}
 		if rx.Key() != rp.Key() {
+			// a disagreement of a stressed / environment-variant server may depend on the schedule and not
+			// reproduce when rapid re-runs the case: put the evidence on stderr right away, with the rate at
+			// which the same request disagrees when repeated
+			bad := 1
+			for k := 0; k < 19; k++ {
+				if r2, e := x.CallLine(line); e == nil && r2.Key() != rp.Key() {
+					bad++
+				}
+			}
+			fmt.Fprintf(os.Stderr, "C19-DISAGREEMENT configuration=%s request=%q disagrees with the purego build in %d of 20 repetitions\n  %s: %.300s\n  purego: %.300s\n",
+				extraNames[i], line, bad, extraNames[i], rx.Key(), rp.Key())
 			t.Fatalf("build configuration %s disagrees with the purego build on %q:\n  %s: %.300s\n  purego: %.300s", extraNames[i], line, extraNames[i], rx.Key(), rp.Key())
 		}
 	}
